@@ -1613,3 +1613,180 @@ def c14(run):
                           "line-level schedule search on the real code", kind="schedule", ops=ops,
                           schedule=sch, expected_alone=want)
     run.samples.append({"pair": [readable_op(o) for o in pairs[0]], "schedules_run": total})
+
+
+# --------------------------------------------------------------------------- C13
+def recorded_random(cc, seed, use_registry, pinned):
+    """Run IBAN.random on the real code, recording what the random sources delivered.
+    -> (canonical outcome line, bank index or None, list of raw xeger outputs)"""
+    import random as _random
+    import schwifty.bban as bbanmod
+    from realops import IBAN, outcome
+    log = {"bank": None, "xegers": []}
+
+    class Rec(_random.Random):
+        def choice(self, seq):
+            import sys as _s
+            i = self._randbelow(len(seq))
+            fr = _s._getframe(1)
+            if fr.f_code.co_filename.endswith("bban.py") and seq and isinstance(seq[0], dict):
+                log["bank"] = i
+            return seq[i]
+
+    orig = bbanmod.Rstr
+
+    class RecRstr(orig):
+        def xeger(self, pattern):
+            out = super().xeger(pattern)
+            log["xegers"].append(out)
+            return out
+    bbanmod.Rstr = RecRstr
+    try:
+        line = outcome(lambda: IBAN.random(cc, random=Rec(seed), use_registry=use_registry, **pinned),
+                       lambda o: hx(str(o)))
+    finally:
+        bbanmod.Rstr = orig
+    return line, log["bank"], log["xegers"]
+
+
+@prop("C13",
+      rule="every country x seeds x {registry, no registry} x subsets of pinned components (conforming, short, "
+           "over-long, combined-width bank codes): the real call with a recording generator (bank index, raw xeger "
+           "strings) and the model evaluated on that choice record; result valid or the overflow error, pinned "
+           "components read back, listed-bank membership, equal results for equal seeds, also in fresh "
+           "interpreters under other PYTHONHASHSEEDs and after other calls; the no-country form; non-trivial = "
+           "distinct (country, seed, mode, pinned)",
+      note="validity/error/determinism theorems proved on the choice-record model; random.Random, rstr.xeger and "
+           "the recording wrapper are trusted; pinned read-back and listed-bank membership are dynamic checks")
+def c13(run):
+    import subprocess
+    import sys as _sys
+    from random import Random
+    from realops import IBAN, REPO, exceptions, registry_lines
+    S = Streams(run.seed * 1000 + 13)
+    r = S.r
+    ops, expect, meta = [], [], []
+    seeds = run.scale(3, 40)
+    full_code = {cc for cc in S.countries if S.banks_of(cc) and all(e["bank_code"] for e in S.banks_of(cc))}
+    for cc in S.countries:
+        spec = S.table[cc]
+        pos = spec.get("positions", {})
+        ops += registry_lines(S.banks_of(cc))
+        expect += [None] * (len(ops) - len(expect))
+        meta += [None] * (len(ops) - len(meta))
+        for sd in range(seeds):
+            seed = run.seed * 100003 + sd * 7 + len(cc)
+            for use_reg in (True, False):
+                pinned = {}
+                if pos and r.random() < 0.6:
+                    for k in r.sample(sorted(pos), r.randint(1, min(2, len(pos)))):
+                        if k == "national_checksum_digits":
+                            continue
+                        w = pos[k][1] - pos[k][0]
+                        cls = [c for n, c in S.spec_items(cc) for _ in range(n)][pos[k][0]:pos[k][1]]
+                        mode = r.random()
+                        # shorter values are zero-padded on the left: conforming only in all-numeric fields
+                        numeric = all(c == "n" for c in cls)
+                        guarded = k in ("bank_code", "branch_code", "account_code")   # fields with a length guard
+                        if mode < 0.6:
+                            n = w
+                        elif mode < 0.85:
+                            n = r.randint(1, w) if numeric else w
+                        else:
+                            n = w + 1 if guarded else w
+                        pinned[k] = "".join(S.draw_class(cls[i % len(cls)] if cls else "n") for i in range(n))
+                line, bank, xs = recorded_random(cc, seed, use_reg, pinned)
+                ops.append(["iban.random_model", hx(cc), "T" if use_reg else "F", "-" if bank is None else str(bank),
+                            ",".join(hx(x) for x in xs) if xs else "none"] + [k + "=" + hx(v) for k, v in pinned.items()])
+                expect.append(line)
+                meta.append((cc, seed, use_reg, pinned))
+    from corr import run_driver
+    model = run_driver(ops)
+    for f, line, m, mo in zip(ops, expect, meta, model):
+        if m is None:
+            continue
+        cc, seed, use_reg, pinned = m
+        run.count(1, key=(cc, seed, use_reg, tuple(sorted(pinned.items()))), tag="random " + line.split(" ")[0])
+        run.traces += 1
+        args = [cc, "seed=%d" % seed, "use_registry=%s" % use_reg, pinned]
+        if mo != line:
+            run.disagreements.append({"stream": "random", "op": f, "implementation": line, "model": mo,
+                                      "readable": args})
+        if line.startswith("crash") or (line.startswith("err") and line != "err GenerateRandomOverflowError"):
+            run.violation("IBAN.random", args, line, "a valid IBAN or GenerateRandomOverflowError",
+                          "outcome class", op=["iban.random", hx(cc), str(seed), "T" if use_reg else "F"] +
+                          [k + "=" + hx(v) for k, v in pinned.items()])
+            continue
+        rop = ["iban.random", hx(cc), str(seed), "T" if use_reg else "F"] + [k + "=" + hx(v) for k, v in pinned.items()]
+        if line.startswith("ok "):
+            i = unhx(line[3:])
+            if i[:2] != cc or real(["iban.new", hx(i), "F", "F"]) != "ok " + hx(i):
+                run.violation("IBAN.random", args, line, "a valid IBAN of the requested country", "validity", op=rop)
+            pos = S.table[cc].get("positions", {})
+            b = i[4:]
+            for k, v in pinned.items():
+                w = pos[k][1] - pos[k][0]
+                got = b[pos[k][0]:pos[k][1]]
+                want = common.clean(v).zfill(w)
+                if k == "bank_code" and "branch_code" in pos and "branch_code" not in pinned and \
+                        len(v) == w + pos["branch_code"][1] - pos["branch_code"][0]:
+                    got = got + b[pos["branch_code"][0]:pos["branch_code"][1]]
+                    want = common.clean(v)
+                if got != want:
+                    run.violation("IBAN.random", args, f"{k} = {got!r}", f"{want!r}", "pinned component must appear unchanged",
+                                  op=rop)
+            if use_reg and cc in full_code and not pinned and real(["bban.bank", hx(cc), hx(b)]).startswith("ok None"):
+                run.violation("IBAN.random", args, line, "an IBAN of a listed bank", "listed-bank membership", op=rop)
+        again = real(rop)
+        if again != line:
+            run.violation("IBAN.random", args, again, line, "same seed, second call in the same process",
+                          kind="history", op=rop, expected_line=line)
+    # registry entries that do not fit their country's bank-identifying field (none on the pinned tree):
+    # force the draw onto each of them
+    import random as _random
+    for kind, item, why in data_audit(S):
+        if kind != "bank" or item["country_code"] not in S.table:
+            continue
+        cc = item["country_code"]
+        idx = S.banks_of(cc).index(item)
+
+        class Forced(_random.Random):
+            def choice(self, seq):
+                i = self._randbelow(len(seq))
+                if seq and isinstance(seq[0], dict):
+                    return seq[idx]
+                return seq[i]
+        from realops import outcome
+        line = outcome(lambda: IBAN.random(cc, random=Forced(1)), lambda o: hx(str(o)))
+        ok = line == "err GenerateRandomOverflowError" or (
+            line.startswith("ok ") and real(["iban.new", line[3:], "F", "F"]) == line)
+        run.count(1, tag="forced draw on an audited entry")
+        if not ok:
+            run.violation("IBAN.random (registry draw)", [cc, {k: item.get(k) for k in ("bank_code", "bic", "name")}],
+                          line, "a valid IBAN or GenerateRandomOverflowError",
+                          "registry draw forced onto the bank entry the data audit flagged (" + why + ")",
+                          kind="config")
+    # reproducibility across processes / hash seeds; the no-country form
+    sample = S.countries if run.tier == "thorough" else r.sample(S.countries, 10)
+    code = ("import sys; sys.path.insert(0, %r)\n"
+            "from random import Random\nfrom schwifty import IBAN\n"
+            "for line in sys.stdin.read().split():\n"
+            "    cc, seed, ur = line.split(',')\n"
+            "    try: print(cc, seed, ur, IBAN.random(cc if cc != '-' else '', random=Random(int(seed)), use_registry=ur == 'T'))\n"
+            "    except Exception as e: print(cc, seed, ur, type(e).__name__)\n") % REPO
+    inp = "\n".join(f"{cc},{run.seed * 31 + k},{ur}" for cc in sample + ["-"] for k in range(3) for ur in "TF")
+    outs = []
+    for hs in ("0", "1", "12345"):
+        p = subprocess.run([_sys.executable, "-c", code], input=inp.encode(), capture_output=True,
+                           env=dict(__import__("os").environ, PYTHONHASHSEED=hs))
+        outs.append(p.stdout.decode())
+        run.count(len(inp.split()), tag="cross-process draw")
+    if len(set(outs)) != 1:
+        a, b = outs[0].splitlines(), next(o for o in outs if o != outs[0]).splitlines()
+        diff = next((x, y) for x, y in zip(a, b) if x != y)
+        run.violation("IBAN.random in fresh interpreters", [diff[0].split(" ")[:3]], diff[1], diff[0],
+                      "equal seeds under different PYTHONHASHSEED", kind="config")
+    for l in outs[0].splitlines():
+        parts = l.split(" ")
+        if not (len(parts[3]) > 8 or parts[3] == "GenerateRandomOverflowError"):
+            run.violation("IBAN.random", parts[:3], parts[3], "a valid IBAN or the overflow error", "subprocess draw")
